@@ -190,6 +190,23 @@ func (p *Proc) boxedIn(fi *FuncInfo) map[*types.Var]bool {
 				}
 			}
 		}
+		// x.M() with a pointer receiver on a variable of a library struct type (strings.Builder,
+		// bytes.Buffer): the variable lives in a cell so that every call sees the same address
+		if call, ok := n.(*ast.CallExpr); ok {
+			if se, ok := ast.Unparen(call.Fun).(*ast.SelectorExpr); ok {
+				if id, ok := ast.Unparen(se.X).(*ast.Ident); ok {
+					if v, ok := info.Uses[id].(*types.Var); ok && isBuilderType(v.Type()) {
+						if sel := info.Selections[se]; sel != nil && sel.Kind() == types.MethodVal {
+							if fn, ok := sel.Obj().(*types.Func); ok {
+								if rs := fn.Type().(*types.Signature).Recv(); rs != nil && isPointer(rs.Type()) {
+									m[v] = true
+								}
+							}
+						}
+					}
+				}
+			}
+		}
 		return true
 	})
 	boxedCache[fi] = m
@@ -624,6 +641,15 @@ func (p *Proc) evalSpecCall(ec *ectx, name string, call *ast.CallExpr) (Val, boo
 		v := p.eval(ec, call.Args[0])
 		al := p.heapGet(ec.st, "AL:", ArrSort(SInt, SBool))
 		return Val{T: Sel(al, v.T), Typ: boolT}, true
+	case "zerobased":
+		// zerobased(x): the slice x starts at the beginning of its backing array
+		v := p.eval(ec, call.Args[0])
+		return Val{T: Eq(T("(s_off "+v.T.S+")", SInt), IntLit(0)), Typ: boolT}, true
+	case "sbuf":
+		// sbuf(b): the text accumulated in the strings.Builder / bytes.Buffer b points to (ghost)
+		v := p.eval(ec, call.Args[0])
+		h := p.heapGet(ec.st, "G:sbuf", ArrSort(SInt, SStr))
+		return Val{T: Sel(h, v.T), Typ: types.Typ[types.String]}, true
 	}
 	return Val{}, false
 }
